@@ -70,6 +70,7 @@ fn model(sc: &ConnScenario) -> Model {
         info_step: None,
         alt_expect: None,
     };
+    let mut by_cookie = false;
     let secret = sc.cfg.secret.is_some();
     let has_target = matches!(&sc.services.discovery.default.res, DiscRes::Targets(t) if !t.is_empty());
     let steps = sc.client.script.clone().unwrap_or_default();
@@ -111,7 +112,7 @@ fn model(sc: &ConnScenario) -> Model {
                         }
                     }
                     if has_target {
-                        if secret {
+                        if secret && !by_cookie {
                             m.expect.push("StoreCookie:passage:authentication".into());
                         }
                         if !m.presented_session {
@@ -160,6 +161,11 @@ fn model(sc: &ConnScenario) -> Model {
                 m.expect.push("CookieRequest:passage:session".into());
                 m.st = St::AwaitSession;
             }
+            // a session cookie that is not one (e.g. the authentication cookie sent in its place): the property does not
+            // say how it is taken - don't care from here
+            (St::AwaitSession, Some(Body::Cookie { payload: Some(p), .. }), _) if serde_json::from_slice::<Value>(p).ok().is_none_or(|v| !(v["id"].is_string() && v["server_address"].is_string() && v["server_port"].is_u64())) => {
+                m.dont_care_from = Some(i);
+            }
             (St::AwaitSession, Some(Body::Cookie { payload, .. }), _) => {
                 m.presented_session = payload.is_some();
                 if m.intent == 3 && secret {
@@ -171,6 +177,12 @@ fn model(sc: &ConnScenario) -> Model {
                 }
             }
             (St::AwaitAuthCookie, Some(Body::Cookie { payload: None, .. }), _) => {
+                m.expect.push("EncryptionRequest".into());
+                m.st = St::AwaitEnc;
+            }
+            // a genuine cookie: the same packets follow, only no new authentication cookie is issued at the end
+            (St::AwaitAuthCookie, Some(Body::Cookie { payload: Some(p), .. }), _) if cookie_accepted(3, sc.cfg.secret.as_deref(), Some(p), &sc.cfg.client_addr, sc.wall.base_s, expiry_of(sc)).is_some() => {
+                by_cookie = true;
                 m.expect.push("EncryptionRequest".into());
                 m.st = St::AwaitEnc;
             }
@@ -228,6 +240,7 @@ fn any_packet(rng: &mut Rng, avoid: Option<i32>) -> Step {
 }
 
 fn generate(rng: &mut Rng) -> ConnScenario {
+    let client_addr = gen_addr(rng);
     let secret = if rng.chance(1, 2) { Some(rng.bytes(16)) } else { None };
     let intent = *rng.pick(&[1, 1, 2, 3, 3]);
     let has_target = rng.chance(2, 3);
@@ -259,7 +272,14 @@ fn generate(rng: &mut Rng) -> ConnScenario {
         let sess = if rng.chance(1, 2) { Some(session_json(rng)) } else { None };
         legal.push(Step::Frame { id: 4, body: Body::Cookie { key: SESSION_KEY.into(), payload: sess } });
         if intent == 3 && secret.is_some() {
-            legal.push(Step::Frame { id: 4, body: Body::Cookie { key: AUTH_KEY.into(), payload: None } });
+            // half of the returning players bring a genuine cookie (the Encryption Response is still required)
+            let payload = if rng.chance(1, 2) {
+                let id = Identity { name: "Returning".into(), uuid: gen_uuid(rng), props: vec![] };
+                Some(signed_cookie(secret.as_ref().unwrap(), &cookie_json(Wall::default().base_s - rng.below(600), &client_addr, &id, Some("t"))))
+            } else {
+                None
+            };
+            legal.push(Step::Frame { id: 4, body: Body::Cookie { key: AUTH_KEY.into(), payload } });
         }
         legal.push(Step::Enc { variant: EncVariant::Honest });
         legal.push(Step::Frame { id: 3, body: Body::Empty });
@@ -312,7 +332,7 @@ fn generate(rng: &mut Rng) -> ConnScenario {
     client.close_on_end_ns = None;
     let mut sc = ConnScenario {
         seed: rng.next_u64(),
-        cfg: ConnCfg { secret, expiry: None, max_frame: None, client_addr: gen_addr(rng) },
+        cfg: ConnCfg { secret, expiry: None, max_frame: None, client_addr },
         wall: Wall::default(),
         services,
         client,
